@@ -2,7 +2,7 @@
 (nested) blueprint registers must be the guard that decides, in the generated server, which routes and fallbacks a Host
 reaches. Model-free: the blueprint tree of the generated application, flattened by c07.App (innermost `.domain(..)` wins,
 as the documentation of `Blueprint::domain` says and as pavex_bp_schema records it), and the trace of the real server."""
-import c07
+import checks.c07 as c07
 
 
 def domain_stage(R, pid):
